@@ -363,13 +363,31 @@ func c18Judge(r *vc.Run, env *atEnv, c *atCase, o *atOutcome) {
 			logs = append(logs, l)
 		}
 	}
-	if len(logs) != 1 {
-		viol("changed-rows-without-image", fmt.Sprintf("one statement changed %d rows but the undo log holds %d non-empty entries", len(stmt.Changes), len(logs)))
+	if len(logs) == 0 {
+		viol("changed-rows-without-image", fmt.Sprintf("one statement changed %d rows but the undo log holds no non-empty entry", len(stmt.Changes)))
 		return
 	}
 	nontrivial = true
 	r.Count("images_checked", 1)
 	l := logs[0]
+	if len(logs) > 1 {
+		// a statement may be recorded as several items (an upsert that updated some rows and inserted others): the items
+		// together must describe the changed rows, each row once
+		r.Count("statements_recorded_as_several_undo_items", 1)
+		l = imgUndo{SQLType: logs[0].SQLType, TableName: logs[0].TableName, BeforeImage: &imgRecord{TableName: logs[0].TableName}, AfterImage: &imgRecord{TableName: logs[0].TableName}}
+		for _, x := range logs {
+			if !strings.EqualFold(x.TableName, l.TableName) {
+				viol("changed-rows-without-image", fmt.Sprintf("the items of one statement name different tables (%s, %s)", l.TableName, x.TableName))
+				return
+			}
+			if x.BeforeImage != nil {
+				l.BeforeImage.Rows = append(l.BeforeImage.Rows, x.BeforeImage.Rows...)
+			}
+			if x.AfterImage != nil {
+				l.AfterImage.Rows = append(l.AfterImage.Rows, x.AfterImage.Rows...)
+			}
+		}
+	}
 	// ground truth
 	changedPre := map[string][]interface{}{}
 	changedPost := map[string][]interface{}{}
@@ -493,13 +511,29 @@ func c18Judge(r *vc.Run, env *atEnv, c *atCase, o *atOutcome) {
 			viol("after-image-untouched-row", "after image of a DELETE is not empty")
 		}
 	case "INSERT":
-		if len(changedPre) > 0 {
+		// an upsert may name existing rows whose values it leaves as they are: such rows may appear in the images with
+		// their (unchanged) content, which is what the table still holds for them
+		var hitUnchanged map[string][]interface{}
+		if len(stmt.Matched) > 0 && strings.Contains(strings.ToLower(stmt.SQL), "on duplicate key") {
+			named := map[string]bool{}
+			for _, k := range stmt.Matched {
+				named[k] = true
+			}
+			hitUnchanged = map[string][]interface{}{}
+			for _, row := range env.db.E.RowsTyped(t.Name) {
+				k := truthRowKey(def, row)
+				if _, ch := changedPost[k]; !ch && named[def.PKKey(row)] {
+					hitUnchanged[k] = row
+				}
+			}
+		}
+		if len(changedPre) > 0 || len(hitUnchanged) > 0 {
 			// upsert that hit an existing row: recorded as an update of that row
-			checkImage("before", l.BeforeImage, changedPre, changedPre, nil)
+			checkImage("before", l.BeforeImage, changedPre, changedPre, hitUnchanged)
 		} else if l.BeforeImage != nil && len(l.BeforeImage.Rows) > 0 {
 			viol("before-image-untouched-row", "before image of an INSERT of new rows is not empty")
 		}
-		checkImage("after", l.AfterImage, changedPost, changedPost, nil)
+		checkImage("after", l.AfterImage, changedPost, changedPost, hitUnchanged)
 	}
 }
 
